@@ -8,6 +8,9 @@ From Grex Require Import Base.Str Base.Ranges Model.Config Model.Cluster Model.D
   Model.Print Model.Pipeline.
 From Grex Require Import Proofs.Lang Proofs.Spec Proofs.FoldTables Proofs.EngineDen
   Proofs.Construction Proofs.PropsGlue.
+From Grex Require Import Engine.Syntax Engine.Parse Engine.Sem.
+From Grex Require Import Proofs.PrintParseNum Proofs.PrintParseDefs Proofs.PrintParseXTok
+  Proofs.PropsGlueE2E.
 From GrexGen Require Import OracleTables.
 
 Theorem C04_lower_in_fold_class : forall c,
@@ -60,6 +63,47 @@ Theorem C04_exact : forall c db sc ws e,
   /\ (L_expr lit_ci cls_engine e [] -> Spec lit_ci cls_engine c db ws []).
 Proof. exact (construction_lang lit_ci cls_engine). Qed.
 
+(* the shorthand classes mean the same with and without (?i): case-folding a class (all x that
+   fold to a member) gives the class itself -- all six classes, the negated ones included *)
+Theorem C04_classes_ci_same : forall l x,
+  (exists y, cls_engine l y /\ fold_eq y x) <-> cls_engine l x.
+Proof. exact cls_engine_ci_same_den. Qed.
+
+(* END TO END, at the string level (notions: Props/C01.v (f)): the string returned by a
+   case-insensitive build parses with the i flag, and on haystacks of Unicode scalar values
+   the parsed pattern matches, under the (?i) denotation of literals, exactly the
+   specification language.  (Simple case folding never relates a surrogate value and a scalar
+   value: nothing is asked of the denotation.) *)
+Theorem C04_build_ci : forall isd is_ws c db sc ws s,
+  f_ci c = true ->
+  ws <> [] ->
+  Forall (Forall scalar) ws ->
+  (forall s0, In s0 ws -> Forall scalar (lower' db s0)) ->
+  oracle_ok db (normalise c db ws) ->
+  printable c -> f_verbose c = false -> ws_ok is_ws ->
+  no_merge (grapheme_clusters c db (normalise c db ws)) = true ->
+  build isd c db sc ws = Some s ->
+  exists fl r, parse is_ws s = Some (fl, r) /\ fl_i fl = true /\ fl_x fl = false
+    /\ (forall u, Forall scalar u -> (u <> [] \/ K4 (normalise c db ws) = false) ->
+          (L_rast lit_ci cls_engine r u <-> Spec lit_ci cls_engine c db ws u))
+    /\ (L_rast lit_ci cls_engine r [] -> Spec lit_ci cls_engine c db ws []).
+Proof. exact build_classes_ci_nv. Qed.
+
+Theorem C04_build_ci_verbose : forall isd is_ws c db sc ws s,
+  f_ci c = true ->
+  ws <> [] ->
+  Forall (Forall scalar) ws ->
+  (forall s0, In s0 ws -> Forall scalar (lower' db s0)) ->
+  oracle_ok db (normalise c db ws) ->
+  printable c -> f_verbose c = true -> ws_x is_ws ->
+  no_merge (grapheme_clusters c db (normalise c db ws)) = true ->
+  build isd c db sc ws = Some s ->
+  exists fl r, parse is_ws s = Some (fl, r) /\ fl_i fl = true /\ fl_x fl = true
+    /\ (forall u, Forall scalar u -> (u <> [] \/ K4 (normalise c db ws) = false) ->
+          (L_rast lit_ci cls_engine r u <-> Spec lit_ci cls_engine c db ws u))
+    /\ (L_rast lit_ci cls_engine r [] -> Spec lit_ci cls_engine c db ws []).
+Proof. exact build_classes_ci_v. Qed.
+
 Print Assumptions C04_lower_in_fold_class.
 Print Assumptions C04_fold_equivalence.
 Print Assumptions C04_skew_exact.
@@ -67,3 +111,6 @@ Print Assumptions C04_classes_fold_invariant.
 Print Assumptions C04_collapse.
 Print Assumptions C04_flag.
 Print Assumptions C04_exact.
+Print Assumptions C04_classes_ci_same.
+Print Assumptions C04_build_ci.
+Print Assumptions C04_build_ci_verbose.
